@@ -16,6 +16,7 @@ def main():
     ran = []
     try:
         demo = None
+        meta0 = json.load(open(os.path.join(src, "meta.json"))) if os.path.exists(os.path.join(src, "meta.json")) else {}
         for cand in ("demo_test.go", "demo/main.go"):
             if os.path.exists(os.path.join(src, cand)): demo = cand
         rc, out = sh("git apply %s/patch.diff" % src, wt); ran.append(("git apply patch.diff", rc))
@@ -25,12 +26,22 @@ def main():
         suite_ok = rc == 0
         def run_demo():
             if demo == "demo_test.go":
-                shutil.copy(os.path.join(src, demo), os.path.join(wt, "zz_demo_test.go"))
                 import re as _re
-                m = _re.search(r"go:build (\w+)", open(os.path.join(src, demo)).read())
+                dtxt = open(os.path.join(src, demo)).read()
+                pkgdir = meta0.get("demo_pkg")
+                if not pkgdir:      # find the directory whose package name matches the demo's package clause
+                    pk = _re.search(r"^package (\w+)", dtxt, _re.M).group(1)
+                    pkgdir = "."
+                    if pk not in ("hdf5", "hdf5_test"):
+                        for root, _, files in os.walk(wt):
+                            if any(f.endswith(".go") and not f.endswith("_test.go") and _re.search(r"^package %s\b" % pk.replace("_test", ""), open(os.path.join(root, f)).read(), _re.M) for f in files):
+                                pkgdir = os.path.relpath(root, wt); break
+                shutil.copy(os.path.join(src, demo), os.path.join(wt, pkgdir, "zz_demo_test.go"))
+                m = _re.search(r"go:build (\w+)", dtxt)
                 tags = ("-tags %s " % m.group(1)) if m else ""
-                r = sh("go test -vet=off -count=1 %s-run 'Demo' ." % tags, wt)
-                os.remove(os.path.join(wt, "zz_demo_test.go")); return r
+                race = "-race " if meta0.get("demo_race") else ""
+                r = sh("go test -vet=off -count=1 %s%s-run 'Demo' ./%s" % (race, tags, pkgdir), wt)
+                os.remove(os.path.join(wt, pkgdir, "zz_demo_test.go")); return r
             else:
                 os.makedirs(os.path.join(wt, "cmd", "zzdemo"), exist_ok=True)
                 shutil.copy(os.path.join(src, demo), os.path.join(wt, "cmd", "zzdemo", "main.go"))
